@@ -8,7 +8,9 @@ records (op ⇒ implementation's observation):
   `reset`                                                     ⇒ `ok`
   `cfg tr=<transport> pv=<version>`                           ⇒ `ok` | `connect-fail` | `panic`
   `c <i> dir=<c2s|s2cn|s2cd> meth=<m> mode=<park|deaf|quick|drive> d=<ms> at=<ms>` ⇒ `ok`
-  `x victim=<i> when=<pre|run|race|post> tc=<ms> dl=<0|1> fault=<none|stall|reject|fail|late|timeout|s503|reset> [rc=1]` ⇒ `ok`
+  `x victim=<i> when=<pre|run|race|post> tc=<ms> dl=<0|1> fault=<none|stall|reject|fail|late|timeout|s503|reset> [cz=1] [rc=1]` ⇒ `ok`
+        (a `c` record may carry `g=1`: the call's context is also a child of the case's shared group context, which ends when
+        the victim's does; cz=1: the contexts end by a CancelCauseFunc with a custom cause — Err is context.Canceled)
         (late, timeout, s503, reset: what the foreign server of transport fj does with the POST of the notice; `late` =
         processed at once, acknowledged late: not a fault.  rc=1: the receiver of the victim's request starts a graceful
         Close 5 ms before the victim's context ends; no follow-up calls)
@@ -55,7 +57,7 @@ def suffix (tr : String) : String := (tr.drop 2).toString
 
 /-- The typed description of the case, from the `cfg`, `c` and `x` records. -/
 def mkCfg (st : DSt) : Cfg :=
-  let carrier := (st.calls.zipIdx.find? fun (k, _) => k.meth == "drive").map (·.2)
+  let carrier := (st.calls.zipIdx.find? fun (k, _) => k.meth == "drive" || k.meth == "mrtr").map (·.2)
   let vdirC2S := match st.calls[st.victim]? with
     | some k => k.dir == "c2s"
     | none => true
@@ -258,9 +260,12 @@ where
 /-- `none` = the log is the visible part of a run (first in log order, then up to the order of same-instant events
 of different calls); `some k` = every attempt got stuck at or before event k. -/
 def accept (c : Cfg) (evs : List Ev) : Option Nat :=
-  let r := search c (ids evs) init evs 0 200000
+  -- a long log (a group of calls cancelled together) is accepted along an almost greedy path; the budget of a
+  -- failing search is kept small there (every node costs time proportional to the length of the log)
+  let big := evs.length > 60
+  let r := search c (ids evs) init evs 0 (if big then 20000 else 200000)
   if r.ok then none else
-  let r2 := searchR c (ids evs) init [] evs 0 300000
+  let r2 := searchR c (ids evs) init [] evs 0 (if big then 30000 else 300000)
   if r2.ok then none else some (max r.pos r2.pos)
 
 /-- Each context ends at most once. -/
